@@ -117,6 +117,10 @@ add('C11', "genrun", 'same executions as C10 with a malloc/free ledger inside th
     'Same worlds, values and variants as C10. After every export call and its post-return the ledger must hold exactly the blocks it held before: post-return frees the returned value, import arguments stay with the caller, the generated *_free helpers (called by the forwarding implementation on its owned arguments) release exactly the owned memory; a free of anything that is not a live block is counted as misuse.',
     'Native x86-64 execution with clang: the generated w.c is compiled with malloc/free/realloc redirected into a ledger, a generated glue file defines the import declarations (calls of the host callback), forwards every exported function to the imported one of the same name and releases the owned arguments with the generated *_free helpers (crates/c/README.md), and provides export trampolines with signatures derived from the reference ABI. utf16, maps, fixed-length lists and resources are outside these worlds (the reference host speaks utf8; the C backend declares maps/fixed-length lists unsupported; resource lifetimes belong to C07-style checks).')
 
+add('C14', "genrun", "exhaustive (8/16-bit) and boundary+random (32/64-bit, float, char) enumeration of core values through every backend's scalar conversions: native execution for Rust, C and C++, interpretation of the emitted conversion expressions for MoonBit, Go, D and C#; oracle = canonical ABI lift/lower written independently",
+    '~17 million evaluations per quick run: for each of u8, s8, u16, s16, u32, s32, u64, s64, f32, f64, char, bool and each backend flavour {Rust, C, C --no-sig-flattening, C++ (native), MoonBit, Go, D, C# (interpreted)} every input (all 2^8 / 2^16 low patterns under 3..5 high-bit patterns; single-bit, all-but-one-bit and low-mask patterns, float specials and 50k random patterns for wide types; boundary and 20k random valid scalars for char; 0/1 for bool) is lifted and lowered through the import and the export side; every observed core value must equal lower(lift(input)) of the canonical ABI, and for the interpreted backends the lifted value itself must be the canonical one.',
+    'C#, Go, MoonBit and D have no toolchain in the sandbox, so their four conversion expressions per type are extracted from the generated source and interpreted (integer conversions value-preserving modulo 2^n; D byte signed, C# byte unsigned; MoonBit Int wraps); an expression the interpreter cannot read makes the check inconclusive (exit 2). Natively executed backends are observed only through the round trip (a typed i8/int8_t cannot hold an out-of-range value). Non-canonical booleans are not fed (conforming hosts lower to 0/1; the Rust runtime asserts it).')
+
 PENDING_REASON = "check not built yet in this session (planned in DESIGN.md §4); not claimed until it exists and passes its sensitivity runs"
 
 def main():
@@ -168,7 +172,7 @@ def main():
 NA = {}
 HOOK_COMMITS = ["b827c12", "a6f2383"]
 ENGINES = [
-    {"name": "genrun", "path": "harness/genrun", "serves_properties": ["C05", "C06", "C09", "C10", "C11", "C12", "C13", "C15", "C16", "C17", "C28", "C29", "C30", "C31", "C32", "C33"], "kind_free_text": "tape-driven constructive WIT world generator (harness/witgen) + in-process drivers for all eight generators with panic capture and output collection"},
+    {"name": "genrun", "path": "harness/genrun", "serves_properties": ["C05", "C06", "C09", "C10", "C11", "C12", "C13", "C14", "C15", "C16", "C17", "C28", "C29", "C30", "C31", "C32", "C33"], "kind_free_text": "tape-driven constructive WIT world generator (harness/witgen) + in-process drivers for all eight generators with panic capture and output collection"},
     {"name": "abisim", "path": "harness/abisim", "serves_properties": ["C01", "C02", "C03", "C04"], "kind_free_text": "recording wit_bindgen_core::abi::Bindgen + instruction interpreter + independent reference canonical ABI (harness/refabi), driven by proptest"},
     {"name": "asyncsim", "path": "harness/asyncsim", "serves_properties": ["C18", "C19", "C20", "C21", "C22", "C23"], "kind_free_text": "the real Rust async guest runtime executed natively (verif hook) against a mock component-model async host; guest programs + host schedules generated by proptest; second flavour harness/asyncsim-nospawn built from the same sources without async-spawn"},
     {"name": "rtpbt", "path": "harness/rtpbt", "serves_properties": ["C24"], "kind_free_text": "proptest histories against wit_bindgen::rt allocation entry points with a tracking global allocator"},
